@@ -148,6 +148,17 @@ type strOK struct {
 	s  string
 }
 
+// strMut: a Stringer with a pointer receiver and a text that can change - a record the caller updates in place
+type strMut struct {
+	id int
+	s  string
+}
+
+func (t *strMut) String() string {
+	callLog = append(callLog, t.id)
+	return t.s
+}
+
 // currentEv: the evaluator whose Process call is in progress (set by observeProcess). A Stringer with an id from 3000 on
 // is RE-ENTRANT: while it is asked for its text it uses that same evaluator (LastDebugErr, then Process on an empty
 // object) - what a value that renders itself with the help of a rule does. For the engine it is an ordinary Stringer.
@@ -373,6 +384,9 @@ func (a *AV) Go(shared map[*AV]interface{}) interface{} {
 		if a.S == "<nil>" {
 			return mkNilSafe(a.ID) // a typed nil pointer whose String() accepts the nil receiver, like (*big.Int)(nil)
 		}
+		if a.ID >= 7000 {
+			return &strMut{a.ID, a.S} // a pointer whose text the caller may change between two evaluations (gorun.go evalOn)
+		}
 		return strOK{a.ID, a.S}
 	case AVStringerPanic:
 		if a.ID >= 2000 {
@@ -514,6 +528,8 @@ func snapshot(v interface{}, ids map[uintptr]int, sb *strings.Builder) {
 		fmt.Fprintf(sb, "chan:%d", len(x))
 	default:
 		switch x := v.(type) {
+		case *strMut:
+			fmt.Fprintf(sb, "strMut:%d:%q", x.id, x.s)
 		case strOK:
 			fmt.Fprintf(sb, "strOK:%d:%q", x.id, x.s) // never format a test Stringer with %v: that would call (and log) String()
 		case strPanic:
